@@ -83,7 +83,10 @@ func (self *Lexer) skipLineComment() {
 		self.advance()
 	}
 
-	self.advance()
+	// Skip the line break (if the comment is not terminated by the end of the input).
+	if self.currentChar != nil {
+		self.advance()
+	}
 }
 
 func (self *Lexer) skipBlockComment() {
